@@ -19,10 +19,12 @@ VARIABLES base,      \* [Keys -> Vals \cup {Nil}]   the permanent (underlying) s
           touched,   \* SUBSET Keys                 keys ever written/deleted through the overlay
           ref,       \* [Keys -> Vals \cup {Nil}]   reference: ordinary store pre-loaded with base
           base0,     \* base content at creation of the overlay (for BaseUnchanged)
+          bopen,     \* a batch object (backedMemBatch) is open ...
+          bops,      \* ... with these operations queued in it (nothing of them is visible before Write)
           hist       \* sequence of operations applied so far (scenario export only; not in VIEW)
 
-vars == <<base, inner, touched, ref, base0, hist>>
-view == <<base, inner, touched, ref, base0>>
+vars == <<base, inner, touched, ref, base0, bopen, bops, hist>>
+view == <<base, inner, touched, ref, base0, bopen, bops>>
 
 Store == [Keys -> Vals \cup {Nil}]
 
@@ -80,6 +82,7 @@ Init == /\ base \in Store
         /\ inner = [k \in Keys |-> Nil]
         /\ touched = {}
         /\ ref = base
+        /\ bopen = FALSE /\ bops = <<>>
         /\ hist = <<>>
 
 Set(k, v) == /\ Len(hist) < MaxOps
@@ -87,14 +90,14 @@ Set(k, v) == /\ Len(hist) < MaxOps
              /\ touched' = touched \cup {k}
              /\ ref' = [ref EXCEPT ![k] = v]
              /\ hist' = Append(hist, [ev |-> "Set", k |-> k, v |-> v])
-             /\ UNCHANGED <<base, base0>>
+             /\ UNCHANGED <<base, base0, bopen, bops>>
 
 Delete(k) == /\ Len(hist) < MaxOps
              /\ inner' = [inner EXCEPT ![k] = Nil]
              /\ touched' = touched \cup {k}
              /\ ref' = [ref EXCEPT ![k] = Nil]
              /\ hist' = Append(hist, [ev |-> "Delete", k |-> k, v |-> Nil])
-             /\ UNCHANGED <<base, base0>>
+             /\ UNCHANGED <<base, base0, bopen, bops>>
 
 \* backedMemBatch: Set/Delete are buffered, Write applies them to the inner store and touches the keys
 Batch(ops) == /\ Len(hist) < MaxOps
@@ -102,11 +105,31 @@ Batch(ops) == /\ Len(hist) < MaxOps
               /\ touched' = touched \cup {ops[i].k : i \in 1..Len(ops)}
               /\ ref' = ApplyOps(ref, ops)
               /\ hist' = Append(hist, [ev |-> "Batch", ops |-> ops])
-              /\ UNCHANGED <<base, base0>>
+              /\ UNCHANGED <<base, base0, bopen, bops>>
+
+(* the batch object step by step: NewBatch, queued Set / Delete (buffered in the batch: reads and iterations in between - and   *)
+(* direct writes - see nothing of them), Write (what Batch does, with the queued operations), or Close without Write (the      *)
+(* batch is abandoned: it never happened)                                                                                     *)
+BOpen == /\ Len(hist) < MaxOps /\ ~bopen /\ bopen' = TRUE /\ bops' = <<>>
+         /\ hist' = Append(hist, [ev |-> "BOpen"]) /\ UNCHANGED <<base, base0, inner, touched, ref>>
+BQueue(o) == /\ Len(hist) < MaxOps /\ bopen /\ Len(bops) < MaxBatch /\ bops' = Append(bops, o)
+             /\ hist' = Append(hist, [ev |-> IF o.op = "set" THEN "BSet" ELSE "BDel", k |-> o.k, v |-> o.v])
+             /\ UNCHANGED <<base, base0, inner, touched, ref, bopen>>
+BWrite == /\ Len(hist) < MaxOps /\ bopen
+          /\ inner' = ApplyOps(inner, bops)
+          /\ touched' = touched \cup {bops[i].k : i \in 1..Len(bops)}
+          /\ ref' = ApplyOps(ref, bops)
+          /\ bopen' = FALSE /\ bops' = <<>>
+          /\ hist' = Append(hist, [ev |-> "BWrite"]) /\ UNCHANGED <<base, base0>>
+BDiscard == /\ Len(hist) < MaxOps /\ bopen /\ bopen' = FALSE /\ bops' = <<>>
+            /\ hist' = Append(hist, [ev |-> "BDiscard"]) /\ UNCHANGED <<base, base0, inner, touched, ref>>
 
 Next == \/ \E k \in Keys, v \in Vals : Set(k, v)
         \/ \E k \in Keys : Delete(k)
         \/ \E ops \in BatchOps : Batch(ops)
+        \/ BOpen \/ BWrite \/ BDiscard
+        \/ \E k \in Keys, v \in Vals : BQueue([op |-> "set", k |-> k, v |-> v])
+        \/ \E k \in Keys : BQueue([op |-> "del", k |-> k, v |-> Nil])
 
 Spec == Init /\ [][Next]_vars
 
